@@ -109,8 +109,12 @@ func genHist(seed uint64, prop, tier string, audit bool, mode string) *Plan {
 		}
 		o = maybeSynth(g, idx, o, prof.synthP)
 		if g.Chance(mut) {
-			if g.Chance(0.7) {
+			if k := g.Intn(10); k < 5 {
 				if v := flipVariant(g, o); v != nil {
+					o = v
+				}
+			} else if k < 8 {
+				if v := tweakVariant(g, o); v != nil {
 					o = v
 				}
 			} else {
@@ -354,7 +358,35 @@ func (hg *histGen) emitPattern() {
 	a := g.Intn(nO)
 	b := g.Intn(nO)
 	r := g.Intn(len(hg.mregs))
-	switch g.Intn(7) {
+	switch g.Intn(8) {
+	case 7: // the same options twice, with a configuration change in between: two independent children
+		if len(hg.mregs) >= 6 {
+			hg.emitLint(a, r, false)
+			return
+		}
+		o := genFilterOpts(g, hg.meta, hg.mregs[r], 0)
+		c1 := hg.emitFilterOpts(r, o)
+		if len(p.Cfgs) > 0 {
+			cx := g.Intn(len(p.Cfgs)+1) - 1
+			if hg.ensureLoaded(cx) {
+				p.Ops = append(p.Ops, Op{K: "setcfg", Reg: r, Cfg: cx})
+				hg.mregs[r].Cfg = cx
+			}
+		}
+		o2 := *o
+		c2 := hg.emitFilterOpts(r, &o2)
+		if c1 >= 0 && c2 >= 0 {
+			hg.emitLint(a, c2, false)
+			if len(p.Cfgs) > 0 {
+				cy := g.Intn(len(p.Cfgs)+1) - 1
+				if hg.ensureLoaded(cy) {
+					p.Ops = append(p.Ops, Op{K: "setcfg", Reg: c2, Cfg: cy})
+					hg.mregs[c2].Cfg = cy
+				}
+			}
+			hg.emitLint(a, c1, false)
+			hg.emitLint(a, c2, false)
+		}
 	case 0: // X, X
 		hg.emitLint(a, r, g.Chance(0.3))
 		hg.emitLint(a, r, false)
@@ -529,7 +561,12 @@ func genFilterOpts(g *RNG, meta *MetaTable, parent *ModelReg, errP float64) *Fil
 			o.IncludeNames = append([]string(nil), names[len(names)-k:]...)
 		}
 	case 3: // by source
-		if len(srcs) > 0 && g.Chance(0.6) {
+		if g.Chance(0.15) {
+			o.IncludeSources = []string{pick(g, allSrcs)}
+			if g.Chance(0.3) {
+				o.IncludeSources = append(o.IncludeSources, pick(g, allSrcs))
+			}
+		} else if len(srcs) > 0 && g.Chance(0.6) {
 			o.IncludeSources = []string{pick(g, srcs)}
 			if g.Chance(0.3) {
 				o.IncludeSources = append(o.IncludeSources, pick(g, allSrcs))
